@@ -163,9 +163,16 @@ PROPS = {
     "C12": {
         "level": "model_checking",
         "interpreters": PRODUCERS,
-        "rule": "for every code object of a spread of 400 (thorough 2400) grammar programs: a store {code object, its CodeData, the normalized CodeData, their two JSON documents}; every sequence of <=2 (thorough <=3) calls among the 9 concrete calls (90 / 819 sequences per code object, run back to back on one shared store) {from_code(c), to_code(d|n), normalize(d|n), to_json_data(d|n), from_json_data(jd|jn)} on those shared objects; after every call the whole store is compared with its initial strict snapshot (documents incl. nested containers and key order) and the result with the result of the same call on untouched arguments; then one mutation (pop/clear/append) at every container path of a returned document followed by to_json_data again, and of an input document after from_json_data. states = distinct store snapshots; transitions = calls; traces_validated_against_impl = call sequences executed.",
+        "rule": "for every code object of a spread of 600 (thorough 2400) grammar programs: a store {code object, its CodeData, the normalized CodeData, their two JSON documents}; every sequence of <=2 (thorough <=3) calls among the 9 concrete calls (90 / 819 sequences per code object, run back to back on one shared store) {from_code(c), to_code(d|n), normalize(d|n), to_json_data(d|n), from_json_data(jd|jn)} on those shared objects; after every call the whole store is compared with its initial strict snapshot (documents incl. nested containers and key order) and the result with the result of the same call on untouched arguments; then one mutation (pop/clear/append) at every container path of a returned document followed by to_json_data again, and of an input document after from_json_data. states = distinct store snapshots; transitions = calls; traces_validated_against_impl = call sequences executed.",
         "assumptions": TRUST,
         "required_reach": {"quick": ["function-document", "pure:90-sequences"], "thorough": ["function-document", "pure:819-sequences"]},
+    },
+    "C16": {
+        "level": "exploration",
+        "interpreters": PRODUCERS,
+        "rule": "S-CLI completely: presence/absence of each program source {file, -c, -e, -m} (16 combinations: 4 valid, 12 usage errors) x all 2^5 subsets of {--dis, --dis-after, --source, --no-normalize, --json} x 8 programs (empty; two lines; nested functions/closure/class; NaN/inf/-0.0/bytes/surrogate/complex/huge-int/tuple/frozenset constants; 300 constants; non-ASCII; async/comprehension/try/while; lines >255 apart) = 4096 argv vectors per interpreter, each run in-process through code_data._cli.main(); the vectors with no flag and with all flags are also run through the real entry point in a subprocess and must agree. Oracle: usage error (exit 2) iff the number of sources != 1; else exit 0, the printed CodeData line textually equals repr() of the API result (normalized unless --no-normalize), the printed JSON loads back to it, --dis/--dis-after listings equal the harness's own dis of the program (opnames and resolved operands).",
+        "assumptions": TRUST + ["the plain-console path is checked (rich is not installed on the producer interpreters)"],
+        "required_reach": {"quick": ["usage-error:0-sources", "usage-error:2-sources", "usage-error:4-sources", "prints-api-result:file", "prints-api-result:-c", "prints-api-result:-e", "prints-api-result:-m", "json-ok", "dis-after-ok", "subprocess-agrees"]},
     },
 }
 
@@ -253,6 +260,12 @@ MANIFEST_TEXT = {
         "design_ref": "DESIGN.md section 4 C12",
         "note": BASE_NOTE,
         "technique": "exhaustive operation-history enumeration on shared objects with state snapshots after every step",
+    },
+    "C16": {
+        "text": "Exhaustive over the argv space S-CLI (all source-option combinations x all output-flag subsets x 8 programs) on each interpreter, in-process and (for the extreme flag sets) through the real entry point; the printed text is compared with the API's own result computed in the same process.",
+        "design_ref": "DESIGN.md section 4 C16",
+        "note": BASE_NOTE,
+        "technique": "exhaustive enumeration of argument vectors; printed output compared textually with the API result",
     },
     "C13": {
         "text": "Same exhaustive space; the block partition is compared with the jump-target set computed from CPython's reading: no empty block, exact starts, every later block targeted.",
